@@ -15,14 +15,14 @@ META = {
     "C05": ("election-run", "exploration", "4 C05", "generated elections without covariates vs exact-rational weighted median closed form", "exact rational weighted median"),
     "C06": ("grid + election-run + model-level", "exploration", "4 C06", "exhaustive rank grid; generated bootstrap runs and generated draw matrices; ordering/nesting/range invariants", "ordering, nesting, range invariants"),
     "C07": ("model-level + election-run", "exploration", "4 C07", "generated draw matrices x call/stop subsets vs decision table; metamorphic no-list run", "decision table from the statement; bit-identical untouched rows"),
-    "C08": ("stateful + model-level", "exploration", "4 C08", "Hypothesis rule-based state machine over aggregate histories; generated draws vs range/composition oracle", "summary equals canonical-history reference"),
+    "C08": ("stateful + model-level + e2e table", "exploration", "4 C08", "Hypothesis rule-based state machine over aggregate histories; generated draw matrices vs range/composition oracle; client summary table vs per-level model estimates", "summary equals canonical-history reference; range/ordering/composition; table carries each level's own estimate"),
     "C09": ("component + e2e slice", "exploration", "4 C09", "generated feeds through get_units vs reference categorisation with precedence", "reference categorisation"),
-    "C10": ("paired election-runs + historical harness", "exploration", "4 C10", "metamorphic pairs differing in one excluded unit's counts; bitwise comparison", "rows outside the perturbed unit/groups bit-identical"),
+    "C10": ("paired election-runs + historical harness", "exploration", "4 C10", "metamorphic pairs differing in one excluded unit's counts; bitwise comparison; observed inputs of the outlier-detection regressions", "rows outside the perturbed unit/groups bit-identical; no excluded unit among the outlier models' inputs"),
     "C11": ("paired election-runs", "exploration", "4 C11", "metamorphic pairs (feed, feed + one unexpected row); exact additivity", "exact +v additivity and ratio formulas"),
-    "C12": ("stateful + subprocess", "exploration", "4 C12", "Hypothesis rule-based state machine over call histories; fresh processes under different hash seeds", "first result of a request equals every later one"),
+    "C12": ("stateful + subprocess", "exploration", "4 C12", "Hypothesis rule-based state machine over call histories (separate elections and one election with several requests sharing frame objects); fresh processes under different hash seeds; repeated national summaries", "every result of a request equals its result on a fresh client with fresh frames"),
     "C13": ("paired election-runs", "exploration", "4 C13", "metamorphic pairs of requests (subset/superset/permutation); bitwise comparison of common cells", "common cells bit-identical"),
     "C14": ("grid + election-run", "exploration", "4 C14", "exhaustive (alpha, n) band on the real split + far-field arithmetic; generated elections with exact n", "gate iff; split validity"),
-    "C15": ("election-run (large)", "exploration", "4 C15", "generated group structures vs fallback-source reference and bounds formula", "reference fallback source and normal-quantile formula"),
+    "C15": ("election-run (large)", "exploration", "4 C15", "generated group structures (two- and three-level lists) vs fallback-source reference and bounds formula", "reference fallback source (own / parent / ... / all) and normal-quantile formula"),
     "C16": ("component + e2e slice", "exploration", "4 C16", "generated level assignments through Featurizer vs reference design matrix; relabelling metamorphic", "reference design matrix"),
     "C17": ("component", "exploration", "4 C17", "generated version histories vs exact-rational interpolation reference", "exact rational interpolation"),
     "C18": ("enumerated configs + recording S3", "fault_enumeration", "4 C18", "enumeration of save_output x environment x estimator x gate outcome with a recording S3 client", "expected put/file set and order; key grammar"),
